@@ -13,7 +13,7 @@ from menelaus.partitioners.KDQTreePartitioner import KDQTreePartitioner
 from menelaus.data_drift import NNDVI
 from . import coqgen as G
 from . import c08, c10
-from .common import feq, lifecycle_obs, priv, obs_term
+from .common import rebound, feq, lifecycle_obs, priv, obs_term
 from .detectors import SPECS, seed_of
 
 ID = "C18"
@@ -192,12 +192,15 @@ def gen_cases(ctx):
             cases.append({"det": name, "params": params, "data": data, "perm": perm, "seed": (ctx.seed + 31 * k) % 100000})
     # one history with test batches larger than any plausible internal block size: a row-blocked
     # implementation must not make the leaf divergence depend on which rows come last
-    big = [[[float(rng.gauss(0, 1))] for _ in range(80)]]
-    for shift in (0.0, 0.6):
-        big.append([[float(rng.gauss(shift if j % 2 else 0.0, 1))] for j in range(4500)])
-    cases.append({"det": "KdqTreeBatch", "params": {"alpha": 0.2, "bootstrap_samples": 5, "count_ubound": 8}, "data": big,
-                  "perm": [gen_perm(rng, rows, "sort") for rows in big], "seed": (ctx.seed + 977) % 100000})
-    bump("det", "KdqTreeBatch"); bump("style", "large-batch")
+    # (the first is also run through the model; the second, beyond 2^16 rows, is decided on the implementation only)
+    for nbig, no_model in ((20000, False), (70000, True)):
+        big = [[[float(rng.gauss(0, 1))] for _ in range(80)]]
+        for shift in (0.0, 0.6):
+            big.append([[float(rng.gauss(shift if j % 2 else 0.0, 1))] for j in range(nbig)])
+        cases.append({"det": "KdqTreeBatch", "params": {"alpha": 0.2, "bootstrap_samples": 5, "count_ubound": 8}, "data": big,
+                      "perm": [gen_perm(rng, rows, "sort") for rows in big], "seed": (ctx.seed + 977) % 100000,
+                      **({"no_model": True} if no_model else {})})
+        bump("det", "KdqTreeBatch"); bump("style", "large-batch")
     return cases
 
 
@@ -212,11 +215,8 @@ def record_histogram(log):
         except Exception:
             log.append(None)
         return r
-    np.histogram = wrapped
-    try:
+    with rebound(np, "histogram", wrapped):
         yield
-    finally:
-        np.histogram = orig
 
 
 def fl(v):
@@ -261,7 +261,7 @@ def run_kdq(case, data):
     m = len(data[0][0])
     np.random.seed(seed_of(case, -1))
     det.set_reference(np.array(data[0], dtype=float))
-    out = {"crit0": priv(det, "_critical_dist"), "rows": []}
+    out = {"crit0": priv(det, "_critical_dist"), "has_crit": hasattr(det, "_critical_dist"), "rows": []}
     ref_idx = 0
     for i, b in enumerate(data[1:]):
         if det.drift_state == "drift":
@@ -282,6 +282,7 @@ def run_kdq(case, data):
         part.build(np.array(data[ref_idx], dtype=float).reshape(-1, m))
         part.fill(np.array(b, dtype=float).reshape(-1, m), "a", reset=True)
         out["rows"].append({"ds": ds, "total": tot, "since": sin, "test_dist": priv(det, "_test_dist"),
+                            "has_tdist": hasattr(det, "_test_dist"), "has_crit": hasattr(det, "_critical_dist"),
                             "crit": priv(det, "_critical_dist"), "c0": c0, "c1": c1, "ref_idx": ref_idx,
                             "kl": None if kl is None else [kl[0], kl[1], kl[2]],
                             "recomputed": float(scipy.stats.entropy(distn(c0), distn(c1))),
@@ -465,7 +466,9 @@ def term_hdm(case, obs):
 
 
 def t_kexp(r):
-    return (f"({obs_term(r['ds'], r['total'], r['since'], [None, None])}, {G.optf(r['test_dist'])}, {G.flt(r['crit'])}, "
+    # the divergence of this update: the private attribute when it is readable, else the value scipy.stats.entropy returned
+    td = r["test_dist"] if r.get("has_tdist", True) else (r["kl"][2] if r["kl"] else None)
+    return (f"({obs_term(r['ds'], r['total'], r['since'], [None, None])}, {G.optf(td)}, {G.flt(r['crit'])}, "
             f"{G.zlist(r['c0'])}, {G.zlist(r['c1'])})")
 
 
@@ -477,6 +480,8 @@ def term_kdq(case, obs):
     data, pdata = case["data"], permuted(case)
     m = len(data[0][0])
     cub = case["params"]["count_ubound"]
+    if not (o.get("has_crit", True) and p.get("has_crit", True) and all(r.get("has_crit", True) for r in o["rows"] + p["rows"])):
+        return None     # the bootstrap bound (the model's oracle input) is not readable under its private name: not model-checked
     if o["crit0"] is None or p["crit0"] is None or any(r["crit"] is None for r in o["rows"] + p["rows"]):
         return "false"
     tab, seen = [], set()
@@ -526,6 +531,8 @@ def coq_term(case, obs):
     if "__exception__" in obs:
         return "false"
     if any(sorted(p) != list(range(len(r))) for p, r in zip(case["perm"], case["data"])):
+        return None
+    if case.get("no_model"):
         return None
     if case["det"] in ("HDDDM", "CDBD"):
         return term_hdm(case, obs)
